@@ -172,6 +172,8 @@ func ensureWorker() (string, string) {
 		defer func() { _ = syscall.Flock(int(lf.Fd()), syscall.LOCK_UN); lf.Close() }()
 	}
 	if st, err := os.Stat(bin); err == nil && st.Size() > 0 {
+		now := time.Now()
+		_ = os.Chtimes(dir, now, now) // in use: keeps it out of the pruning below
 		return bin, key
 	}
 	t0 := time.Now()
@@ -208,7 +210,9 @@ func pruneCache(keep string) {
 	}
 	sort.Slice(es, func(i, j int) bool { return es[i].t.After(es[j].t) })
 	for i, e := range es {
-		if i >= 3 {
+		// a build that was used within the last three hours may belong to a check that is still running
+		// (a thorough tier of another tree started from a second shell); beyond that the three newest stay, and never more than forty
+		if (i >= 3 && time.Since(e.t) > 3*time.Hour) || i >= 40 {
 			_ = os.RemoveAll(filepath.Join(base, e.name))
 		}
 	}
